@@ -135,4 +135,414 @@ theorem walksFrom_nodup (init : Nat × Leg) (n pos : Nat) (ent : Leg) (c : Confi
     · simp
 
 
+/-! ### the start legs -/
+
+/-- the legs the start draw can select: slot draw `a < Σk` ↦ (position, relative variable), then
+either side -/
+def startLegs (slots : Slots) : List (Nat × Leg) :=
+  (List.range (totalVars slots)).flatMap fun a =>
+    match pickLeg slots 0 a with
+    | some (p, r) => [(p, ⟨r, false⟩), (p, ⟨r, true⟩)]
+    | none => []
+
+theorem mem_startLegs (slots : Slots) (init : Nat × Leg) :
+    init ∈ startLegs slots ↔ HeadOK slots init.1 init.2 := by
+  unfold startLegs
+  rw [List.mem_flatMap]
+  constructor
+  · rintro ⟨a, _, h⟩
+    split at h
+    · rename_i p r hp
+      obtain ⟨j, op, hj, hop, hr, _⟩ := (pickLeg_iff slots 0 a p r).mp hp
+      have : j = p := by omega
+      subst this
+      simp only [List.mem_cons, List.not_mem_nil, or_false] at h
+      rcases h with rfl | rfl <;> exact ⟨op, hop, hr⟩
+    · cases h
+  · rintro ⟨op, hop, hr⟩
+    obtain ⟨p, ⟨r, b⟩⟩ := init
+    simp only at hop hr
+    refine ⟨totalVars (slots.take p) + r, List.mem_range.mpr (slotIndex_lt slots p r op hop hr), ?_⟩
+    have : pickLeg slots 0 (totalVars (slots.take p) + r) = some (p, r) :=
+      (pickLeg_iff slots 0 _ p r).mpr ⟨p, op, by omega, hop, hr, rfl⟩
+    rw [this]
+    cases b <;> simp
+
+theorem startLegs_nodup (slots : Slots) : (startLegs slots).Nodup := by
+  unfold startLegs
+  rw [List.nodup_flatMap]
+  refine ⟨fun a _ => ?_, ?_⟩
+  · split
+    · simp
+    · simp
+  · refine (List.nodup_range).imp ?_
+    intro a b hab q hqa hqb
+    simp only at hqa hqb
+    split at hqa
+    · rename_i p r hp
+      split at hqb
+      · rename_i p2 r2 hp2
+        obtain ⟨j, op, hj, hop, hr, ha⟩ := (pickLeg_iff slots 0 a p r).mp hp
+        obtain ⟨j2, op2, hj2, hop2, hr2, hb⟩ := (pickLeg_iff slots 0 b p2 r2).mp hp2
+        have e1 : j = p := by omega
+        have e2 : j2 = p2 := by omega
+        subst e1; subst e2
+        have : j = j2 ∧ r = r2 := by
+          simp only [List.mem_cons, List.not_mem_nil, or_false] at hqa hqb
+          rcases hqa with rfl | rfl <;> rcases hqb with h | h <;>
+            (injection h with h1 h2; injection h2 with h3 h4; exact ⟨h1, h3⟩)
+        obtain ⟨rfl, rfl⟩ := this
+        exact hab (by rw [ha, hb])
+      · cases hqb
+    · cases hqa
+
+/-! ### the closed loops of at most `n` visits -/
+
+def loopsOf (n : Nat) (c : Config) : List ((Nat × Leg) × List Visit × Config) :=
+  (startLegs c.slots).flatMap fun init =>
+    (walksFrom init n init.1 init.2 c).map fun (q : List Visit × Config) => (init, q.1, q.2)
+
+theorem mem_loopsOf (n : Nat) (c : Config) (init : Nat × Leg) (tr : List Visit) (c' : Config) :
+    (init, tr, c') ∈ loopsOf n c ↔
+      HeadOK c.slots init.1 init.2 ∧ tr.length ≤ n ∧ Walk init init.1 init.2 c tr c' := by
+  unfold loopsOf
+  rw [List.mem_flatMap]
+  constructor
+  · rintro ⟨i0, hi0, h⟩
+    rw [List.mem_map] at h
+    obtain ⟨q, hq, he⟩ := h
+    simp only [Prod.mk.injEq] at he
+    obtain ⟨rfl, rfl, rfl⟩ := he
+    exact ⟨(mem_startLegs _ _).mp hi0, (mem_walksFrom _ _ _ _ _ _ _).mp hq⟩
+  · rintro ⟨hh, hl, hw⟩
+    refine ⟨init, (mem_startLegs _ _).mpr hh, ?_⟩
+    rw [List.mem_map]
+    exact ⟨(tr, c'), (mem_walksFrom _ _ _ _ _ _ _).mpr ⟨hl, hw⟩, rfl⟩
+
+theorem loopsOf_nodup (n : Nat) (c : Config) : (loopsOf n c).Nodup := by
+  unfold loopsOf
+  rw [List.nodup_flatMap]
+  refine ⟨fun init _ => ?_, ?_⟩
+  · refine (walksFrom_nodup init n init.1 init.2 c).map ?_
+    intro a b h
+    simp only [Prod.mk.injEq, true_and] at h
+    exact Prod.ext h.1 h.2
+  · refine (startLegs_nodup c.slots).imp ?_
+    intro a b hab q hqa hqb
+    rw [List.mem_map] at hqa hqb
+    obtain ⟨_, _, rfl⟩ := hqa
+    obtain ⟨_, _, h⟩ := hqb
+    simp only [Prod.mk.injEq] at h
+    exact hab h.1.symm
+
+
+/-! ### balance along a chain of visits, without division -/
+
+theorem slotsWeight_split (w : Nat → List Bool → List Bool → Rat) (S : Slots) (pos : Nat) (op : Op)
+    (h : S[pos]? = some (some op)) : slotsWeight w S = opW w op * slotsWeight w (S.set pos none) := by
+  induction S generalizing pos with
+  | nil => simp at h
+  | cons x t ih =>
+    cases pos with
+    | zero =>
+      simp only [List.getElem?_cons_zero, Option.some.injEq] at h
+      subst h
+      simp [slotsWeight, opW]
+    | succ p =>
+      simp only [List.getElem?_cons_succ] at h
+      have := ih p h
+      cases x with
+      | none => simpa [slotsWeight] using this
+      | some o => simp only [List.set_cons_succ, slotsWeight]; rw [this]; ring
+
+theorem chain_balance (w : Nat → List Bool → List Bool → Rat) (S S' : Slots) (tr : List Visit)
+    (h : chain S tr S') :
+    slotsWeight w S * pathProb w tr = slotsWeight w S' * pathProbRev w tr := by
+  induction tr generalizing S with
+  | nil => simp only [chain] at h; subst h; rfl
+  | cons v t ih =>
+    simp only [chain] at h
+    obtain ⟨h0, h1⟩ := h
+    have hl : v.pos < S.length := (List.getElem?_eq_some_iff.mp h0).1
+    have e1 := slotsWeight_split w S v.pos v.op h0
+    have e2 := slotsWeight_split w (S.set v.pos (some v.after)) v.pos v.after (by simp [hl])
+    rw [List.set_set] at e2
+    have hb := exitProb_balance (w v.op.bond) (v.op.ins, v.op.outs) v.ent v.ex v.op.vars.length
+    have ha : opW w v.after = w v.op.bond (flipIO (flipIO (v.op.ins, v.op.outs) v.ent) v.ex).1
+        (flipIO (flipIO (v.op.ins, v.op.outs) v.ent) v.ex).2 := by
+      rw [opW_after]; rfl
+    have hbefore : opW w v.op = w v.op.bond v.op.ins v.op.outs := rfl
+    simp only at hb
+    rw [← hbefore, ← ha] at hb
+    have hi := ih _ h1
+    simp only [pathProb, pathProbRev]
+    calc slotsWeight w S *
+          (exitProb (w v.op.bond) (v.op.ins, v.op.outs) v.ent v.ex v.op.vars.length * pathProb w t)
+        = slotsWeight w (S.set v.pos none) *
+            (opW w v.op * exitProb (w v.op.bond) (v.op.ins, v.op.outs) v.ent v.ex v.op.vars.length) *
+            pathProb w t := by rw [e1]; ring
+      _ = (slotsWeight w (S.set v.pos (some v.after)) * pathProb w t) *
+            exitProb (w v.op.bond) (flipIO (flipIO (v.op.ins, v.op.outs) v.ent) v.ex) v.ex v.ent
+              v.op.vars.length := by rw [hb, e2]; ring
+      _ = _ := by rw [hi]; ring
+
+/-! ### the truncated kernel -/
+
+/-- start probability of one existing leg: `1/(2Σk)` -/
+def legProb (slots : Slots) : Rat := 1 / (2 * (totalVars slots : Rat))
+
+/-- **the loop kernel truncated at `n` vertex visits**: total probability of the closed loops of
+at most `n` visits from `c` that end in `c'` (start leg uniform over `startLegs`, exits by
+`exitProb`); with no operators the update does nothing. -/
+def loopKn (w : Nat → List Bool → List Bool → Rat) (n : Nat) (c c' : Config) : Rat :=
+  if countOps c.slots = 0 then (if c' = c then 1 else 0) else
+  (((loopsOf n c).filter (fun ℓ => decide (ℓ.2.2 = c'))).map
+    (fun ℓ => legProb c.slots * pathProb w ℓ.2.1)).sum
+
+/-- the retraced loop -/
+def revLoop (c : Config) (ℓ : (Nat × Leg) × List Visit × Config) : (Nat × Leg) × List Visit × Config :=
+  match ℓ.2.1.getLast? with
+  | some vm => ((vm.pos, vm.ex), (ℓ.2.1.map Visit.rev).reverse, c)
+  | none => ℓ
+
+theorem walk_canon {init : Nat × Leg} {c c' : Config} {tr : List Visit}
+    (h : Walk init init.1 init.2 c tr c') (hg : GoodL c) (hh : HeadOK c.slots init.1 init.2) :
+    ∀ v ∈ tr, CanonOp v.op :=
+  (h.structure c.slots (fun o ho => (hg.1 o ho).2.2.1) rfl hh hg.2.1).2.2.2.2
+
+/-- retracing maps the loops `c → c'` into the loops `c' → c`, and twice is the identity -/
+theorem revLoop_mem {n : Nat} {c c' : Config} (hg : GoodL c)
+    {ℓ : (Nat × Leg) × List Visit × Config}
+    (h : ℓ ∈ (loopsOf n c).filter (fun ℓ => decide (ℓ.2.2 = c'))) :
+    revLoop c ℓ ∈ (loopsOf n c').filter (fun ℓ => decide (ℓ.2.2 = c)) ∧
+      revLoop c' (revLoop c ℓ) = ℓ ∧ GoodL c' := by
+  obtain ⟨init, tr, fin⟩ := ℓ
+  rw [List.mem_filter] at h
+  obtain ⟨hm, hf⟩ := h
+  simp only [decide_eq_true_eq] at hf
+  subst hf
+  obtain ⟨hh, hl, hw⟩ := (mem_loopsOf n c init tr fin).mp hm
+  obtain ⟨vm, hvm, hwR, hhR, hgR⟩ := hw.reverse hg hh
+  have hcan := walk_canon hw hg hh
+  have hrl : revLoop c (init, tr, fin) = ((vm.pos, vm.ex), (tr.map Visit.rev).reverse, c) := by
+    simp only [revLoop, hvm]
+  -- first visit of the walk is at the start leg
+  obtain ⟨hloop, _⟩ := hw.structure c.slots (fun o ho => (hg.1 o ho).2.2.1) rfl hh hg.2.1
+  obtain ⟨v1, hv1, hinit⟩ := hloop.first
+  refine ⟨?_, ?_, hgR⟩
+  · rw [hrl, List.mem_filter]
+    refine ⟨(mem_loopsOf n fin _ _ c).mpr ⟨hhR, by simpa using hl, hwR⟩, by simp⟩
+  · rw [hrl]
+    have hlast : ((tr.map Visit.rev).reverse).getLast? = some v1.rev := by
+      rw [List.getLast?_reverse, List.head?_map, hv1]; rfl
+    simp only [revLoop, hlast]
+    have hmap : ((tr.map Visit.rev).reverse.map Visit.rev).reverse = tr := by
+      rw [List.map_reverse, List.reverse_reverse, List.map_map]
+      conv => rhs; rw [← List.map_id tr]
+      apply List.map_congr_left
+      intro v hv
+      exact Visit.rev_rev v (hcan v hv)
+    rw [hmap]
+    have : (v1.rev.pos, v1.rev.ex) = init := hinit
+    rw [this]
+
+
+theorem Walk.skeleton {init : Nat × Leg} {pos : Nat} {ent : Leg} {c c' : Config} {tr : List Visit}
+    (h : Walk init pos ent c tr c') : skeletonOf c'.slots = skeletonOf c.slots := by
+  induction h with
+  | @last pos ent c ex op c' hop _ hs =>
+    obtain ⟨op2, hop2, hslots, _⟩ := stepEx_cases hs
+    rw [hslots]; exact skeleton_set_passThrough ent ex hop2
+  | @step pos ent c ex op c1 p e t c' hop _ hs _ ih =>
+    obtain ⟨op2, hop2, hslots, _⟩ := stepEx_cases hs
+    rw [ih, hslots]; exact skeleton_set_passThrough ent ex hop2
+
+theorem countOps_skeleton {s1 s2 : Slots} (h : skeletonOf s1 = skeletonOf s2) :
+    countOps s1 = countOps s2 := by
+  rw [countOps_eq_occ, countOps_eq_occ, occ_skeleton h]
+
+theorem legProb_skeleton {s1 s2 : Slots} (h : skeletonOf s1 = skeletonOf s2) :
+    legProb s1 = legProb s2 := by
+  unfold legProb; rw [(totalVars_pickLeg_skeleton h).1]
+
+theorem sum_map_mul_left' {α} (l : List α) (a : Rat) (f : α → Rat) :
+    (l.map fun x => a * f x).sum = a * (l.map f).sum := by
+  induction l with
+  | nil => simp
+  | cons x t ih => simp [ih, mul_add]
+
+/-- one loop against its retraced loop -/
+theorem loop_term_balance (w : Nat → List Bool → List Bool → Rat) {n : Nat} {c c' : Config}
+    (hg : GoodL c) {ℓ : (Nat × Leg) × List Visit × Config}
+    (h : ℓ ∈ (loopsOf n c).filter (fun ℓ => decide (ℓ.2.2 = c'))) :
+    slotsWeight w c.slots * (legProb c.slots * pathProb w ℓ.2.1) =
+      slotsWeight w c'.slots * (legProb c'.slots * pathProb w (revLoop c ℓ).2.1) := by
+  obtain ⟨init, tr, fin⟩ := ℓ
+  rw [List.mem_filter] at h
+  obtain ⟨hm, hf⟩ := h
+  simp only [decide_eq_true_eq] at hf
+  subst hf
+  obtain ⟨hh, hl, hw⟩ := (mem_loopsOf n c init tr fin).mp hm
+  obtain ⟨vm, hvm, _⟩ := hw.reverse hg hh
+  obtain ⟨_, hchain, _⟩ := hw.structure c.slots (fun o ho => (hg.1 o ho).2.2.1) rfl hh hg.2.1
+  have hrl : (revLoop c (init, tr, fin)).2.1 = (tr.map Visit.rev).reverse := by
+    simp only [revLoop, hvm]
+  rw [hrl, pathProb_rev, legProb_skeleton hw.skeleton]
+  have := chain_balance w c.slots fin.slots tr hchain
+  calc slotsWeight w c.slots * (legProb c.slots * pathProb w tr)
+      = legProb c.slots * (slotsWeight w c.slots * pathProb w tr) := by ring
+    _ = _ := by rw [this]; ring
+
+/-- **Detailed balance of the truncated loop kernel** with the product of the stored matrix
+elements, for every truncation `n`, every weight function, and all well-formed, canonically
+tagged, periodic `c`, `c'`. -/
+theorem loopKn_reversible (w : Nat → List Bool → List Bool → Rat) (n : Nat) (c c' : Config)
+    (hg : GoodL c) (hg' : GoodL c') :
+    slotsWeight w c.slots * loopKn w n c c' = slotsWeight w c'.slots * loopKn w n c' c := by
+  by_cases hcc : c' = c
+  · subst hcc; rfl
+  have hcc' : ¬ c = c' := fun e => hcc e.symm
+  -- if a loop connects them, they have the same number of ops
+  have hcount : ∀ {a b : Config} {ℓ : (Nat × Leg) × List Visit × Config},
+      ℓ ∈ (loopsOf n a).filter (fun ℓ => decide (ℓ.2.2 = b)) → countOps b.slots = countOps a.slots := by
+    intro a b ℓ h
+    obtain ⟨init, tr, fin⟩ := ℓ
+    rw [List.mem_filter] at h
+    obtain ⟨hm, hf⟩ := h
+    simp only [decide_eq_true_eq] at hf
+    subst hf
+    exact countOps_skeleton ((mem_loopsOf n a init tr fin).mp hm).2.2.skeleton
+  -- the bijection as a permutation of lists
+  have hperm : List.Perm ((loopsOf n c').filter (fun ℓ => decide (ℓ.2.2 = c)))
+      (((loopsOf n c).filter (fun ℓ => decide (ℓ.2.2 = c'))).map (revLoop c)) := by
+    rw [List.perm_ext_iff_of_nodup ((loopsOf_nodup n c').filter _)]
+    · intro x
+      constructor
+      · intro hx
+        obtain ⟨h1, h2, _⟩ := revLoop_mem hg' hx
+        exact List.mem_map.mpr ⟨revLoop c' x, h1, h2⟩
+      · intro hx
+        obtain ⟨y, hy, rfl⟩ := List.mem_map.mp hx
+        exact (revLoop_mem hg hy).1
+    · refine List.Nodup.map_on ?_ ((loopsOf_nodup n c).filter _)
+      intro x hx y hy hxy
+      have ex := (revLoop_mem (c' := c') hg hx).2.1
+      have ey := (revLoop_mem (c' := c') hg hy).2.1
+      rw [← ex, ← ey, hxy]
+  unfold loopKn
+  by_cases h0 : countOps c.slots = 0
+  · rw [if_pos h0, if_neg hcc]
+    by_cases h0' : countOps c'.slots = 0
+    · rw [if_pos h0', if_neg hcc']; ring
+    · rw [if_neg h0']
+      -- no loop from c' can reach c
+      have hempty : (loopsOf n c').filter (fun ℓ => decide (ℓ.2.2 = c)) = [] := by
+        rw [List.eq_nil_iff_forall_not_mem]
+        intro ℓ hℓ
+        exact h0' (by rw [← hcount hℓ]; exact h0)
+      rw [hempty]; simp
+  · rw [if_neg h0]
+    by_cases h0' : countOps c'.slots = 0
+    · rw [if_pos h0', if_neg hcc']
+      have hempty : (loopsOf n c).filter (fun ℓ => decide (ℓ.2.2 = c')) = [] := by
+        rw [List.eq_nil_iff_forall_not_mem]
+        intro ℓ hℓ
+        exact h0 (by rw [← hcount hℓ]; exact h0')
+      rw [hempty]; simp
+    · rw [if_neg h0']
+      rw [(hperm.map _).sum_eq, List.map_map, ← sum_map_mul_left', ← sum_map_mul_left']
+      congr 1
+      apply List.map_congr_left
+      intro ℓ hℓ
+      exact loop_term_balance w hg hℓ
+
+
+/-! ### the model's closed runs are among the enumerated loops -/
+
+/-- **a closed run of the model is a walk**: its trace, from its start to its result -/
+theorem loopIter_walk (w : Nat → List Bool → List Bool → Rat) (init : Nat × Leg) (fuel pos : Nat)
+    (ent : Leg) (s : LoopSt)
+    (h1 : (loopIter w init fuel pos ent s).rs.panicked = false)
+    (h2 : (loopIter w init fuel pos ent s).rs.short = false) :
+    Walk init pos ent ⟨s.state, s.slots⟩ (loopTrace w init fuel pos ent s)
+      ⟨(loopIter w init fuel pos ent s).state, (loopIter w init fuel pos ent s).slots⟩ := by
+  induction fuel generalizing pos ent s with
+  | zero => simp [loopIter] at h2
+  | succ f ih =>
+    unfold loopIter at h1 h2 ⊢
+    unfold loopTrace
+    rcases loopBody_cases' w init pos ent s with ⟨hn, hfl⟩ | ⟨op, ex, hex, _⟩
+    · exfalso
+      rcases heq : loopBody w init pos ent s with ⟨s', _ | ⟨p, e⟩⟩
+      · rw [heq] at hfl h1 h2
+        simp only at hfl h1 h2
+        rcases hfl with h | h
+        · rw [h1] at h; cases h
+        · rw [h2] at h; cases h
+      · rw [heq] at hn; cases hn
+    · have hv : visitHere w pos ent s = [⟨pos, ent, ex, op⟩] := by unfold visitHere; rw [hex]
+      obtain ⟨hop, hrel, _⟩ := exitOf_some hex
+      have hst := loopBody_stepEx w init pos ent s op ex hex
+      rcases hse : stepEx init pos ent ⟨s.state, s.slots⟩ ex with _ | ⟨c1, res⟩
+      · -- the missing-link panic
+        exfalso
+        rw [hse] at hst
+        simp only at hst
+        rcases heq : loopBody w init pos ent s with ⟨s', _ | ⟨p, e⟩⟩
+        · rw [heq] at hst h1
+          simp only at hst h1
+          rw [h1] at hst; cases hst.2
+        · rw [heq] at hst; cases hst.1
+      · rw [hse] at hst
+        simp only at hst
+        obtain ⟨e1, e2, e3⟩ := hst
+        rcases heq : loopBody w init pos ent s with ⟨s', _ | ⟨p, e⟩⟩
+        · rw [heq] at e1 e2 e3
+          simp only at e1 e2 e3 ⊢
+          rw [hv]
+          subst e3
+          have : c1 = ⟨s'.state, s'.slots⟩ := by cases c1; simp only at e1 e2; rw [e1, e2]
+          rw [this] at hse
+          exact Walk.last hop hrel hse
+        · rw [heq] at e1 e2 e3 h1 h2
+          simp only at e1 e2 e3 h1 h2 ⊢
+          rw [hv]
+          subst e3
+          have : c1 = ⟨s'.state, s'.slots⟩ := by cases c1; simp only at e1 e2; rw [e1, e2]
+          rw [this] at hse
+          exact Walk.step hop hrel hse (ih p e s' h1 h2)
+
+/-- a closed `loopUpdate` with `m` visits is one of the loops of `loopsOf n` for every `n ≥ m` -/
+theorem loopUpdate_mem_loopsOf (w : Nat → List Bool → List Bool → Rat) (cfg : Config) (rs : RS)
+    (hn : countOps cfg.slots ≠ 0)
+    (h1 : (loopUpdate w cfg rs).2.panicked = false) (h2 : (loopUpdate w cfg rs).2.short = false)
+    (n : Nat) (hlen : (loopUpdateTrace w cfg rs).length ≤ n) :
+    ∃ init, (init, loopUpdateTrace w cfg rs, (loopUpdate w cfg rs).1) ∈ loopsOf n cfg := by
+  unfold loopUpdate at h1 h2 ⊢
+  unfold loopUpdateTrace at hlen ⊢
+  rw [if_neg hn] at h1 h2 hlen ⊢
+  rcases hs : loopStart cfg.slots rs with ⟨_ | ⟨p, leg⟩, rs'⟩
+  · exfalso
+    rw [hs] at h1 h2
+    simp only at h1 h2
+    have : rs'.panicked = true ∨ rs'.short = true := by
+      unfold loopStart at hs
+      simp only at hs
+      split at hs
+      · injection hs with _ h; rw [← h]; exact Or.inl rfl
+      · split at hs
+        · rename_i hfl
+          injection hs with _ h
+          rw [← h]
+          simpa using hfl
+        · injection hs with h _; cases h
+    rcases this with h | h
+    · rw [h1] at h; cases h
+    · rw [h2] at h; cases h
+  · rw [hs] at h1 h2 hlen
+    simp only [if_neg hn] at h1 h2 hlen ⊢
+    refine ⟨(p, leg), (mem_loopsOf n cfg (p, leg) _ _).mpr ⟨loopStart_head _ _ _ _ _ hs, hlen, ?_⟩⟩
+    exact loopIter_walk w (p, leg) _ p leg ⟨cfg.state, cfg.slots, rs'⟩ h1 h2
+
+
 end Qmc.LoopC
